@@ -91,6 +91,12 @@ chk("C07",
     "stateless explicit enumeration of all bounded inputs x 6 renderer configurations; output-language membership oracle (strict scanner)",
     "DESIGN.md section 6, C07")
 
+chk("C10",
+    "Every bounded input is parsed and its tree rendered by the real renderer under 36 configurations (3 soft-break behaviours x IgnoreRaw x 6 FilterTag predicates); each output must equal, byte for byte (modulo &lt; vs < when a tag filter is set), an independent recursive reading of the tree through the public accessors; determinism, the Render/AppendBlock join law, dst-prefix preservation, silence of reference definitions, RenderHTML == default renderer, and an unchanged tree dump and Source are checked on the same executions.",
+    "Bounded scope (alphabets, lengths in the evidence). The reference follows the library's documented escape sets and attribute order (calibration log in DESIGN.md); which '<' a filter escapes is left to C17.",
+    "stateless explicit enumeration of all bounded inputs x 36 renderer configurations; reference-model (direct tree reading) comparison on every execution",
+    "DESIGN.md section 6, C10")
+
 # Reasons for properties not (yet) claimed.
 PENDING = {}
 
